@@ -30,7 +30,8 @@ fn ns_key(i: usize) -> String {
         format!("w{}", i)
     }
 }
-const URIS: &[&str] = &["urn:A", "urn:B", "urn:C"];
+/// the last entry (no namespace) is only ever paired with the empty prefix: xmlns=""
+const URIS: &[&str] = &["urn:A", "urn:B", "urn:C", ""];
 const VALS: &[&str] = &["", "v", "w", "x y", "<&>"];
 
 #[derive(Clone, Debug, PartialEq)]
@@ -172,6 +173,14 @@ impl World {
         let _ = xot.append(root, e1);
         // a child so that start and end tags exist
         let _ = xot.append_text(e0, "t");
+        // the common parent binds some of the pool's prefixes itself: an update of a child's own map must not be
+        // confused with what the child merely inherits
+        for i in 0..pool.min(4) {
+            if rng.chance(1, 2) {
+                let u = uris[rng.below(3)];
+                xot.namespaces_mut(root).insert(nkeys[i], u);
+            }
+        }
         let mut w = World {
             xot,
             akeys,
@@ -196,7 +205,7 @@ impl World {
             let mut nk: Vec<usize> = (0..pool).collect();
             rng.shuffle(&mut nk);
             for k in nk.into_iter().take(nn) {
-                let u = rng.below(URIS.len());
+                let u = if ns_key(k).is_empty() { rng.below(URIS.len()) } else { rng.below(URIS.len() - 1) };
                 w.xot.namespaces_mut(w.e[which].node).insert(w.nkeys[k], w.uris[u]);
                 w.e[which].nss.push(NEntry { key: k, val: u, node: None });
             }
@@ -274,9 +283,12 @@ impl World {
         let which = if rng.chance(4, 5) { 0 } else { 1 };
         let other = 1 - which;
         let e = self.e[which].node;
+        if rng.chance(1, 8) {
+            return self.session(rng);
+        }
         let k = rng.below(self.akeys.len());
         let v = rng.pick(VALS).to_string();
-        let u = rng.below(URIS.len());
+        let u = if ns_key(k).is_empty() { rng.below(URIS.len()) } else { rng.below(URIS.len() - 1) };
         let attr_side = rng.bool();
         let kind = rng.below(20);
         let mut problem: Option<String> = None;
@@ -741,6 +753,171 @@ impl World {
         (desc, problem)
     }
 
+    /// ONE mutable view kept alive over several updates and reads (a view that remembers something about the map
+    /// must keep it up to date itself)
+    fn session(&mut self, rng: &mut Rng) -> (String, Option<String>) {
+        let which = if rng.chance(4, 5) { 0 } else { 1 };
+        let e = self.e[which].node;
+        let n_ops = rng.range(2, 6);
+        let mut desc = String::new();
+        let mut problem: Option<String> = None;
+        if rng.bool() {
+            desc.push_str(&format!("attributes_mut(e{}) session:", which));
+            let mut model: Vec<AEntry> = self.e[which].attrs.clone();
+            let keys = self.akeys.clone();
+            {
+                let mut m = self.xot.attributes_mut(e);
+                for _ in 0..n_ops {
+                    let k = rng.below(keys.len());
+                    let v = rng.pick(VALS).to_string();
+                    match rng.below(6) {
+                        0 => {
+                            desc.push_str(" len;");
+                        }
+                        1 | 2 => {
+                            desc.push_str(&format!(" insert(key#{}, {:?});", k, v));
+                            let old = model.iter().position(|a| a.key == k);
+                            let r = m.insert(keys[k], v.clone());
+                            if r != old.map(|p| model[p].val.clone()) {
+                                problem = Some(format!("insert returned {:?}", r));
+                            }
+                            match old {
+                                Some(p) => model[p].val = v,
+                                None => model.push(AEntry { key: k, val: v, node: None }),
+                            }
+                        }
+                        3 => {
+                            desc.push_str(&format!(" remove(key#{});", k));
+                            let old = model.iter().position(|a| a.key == k);
+                            let r = m.remove(keys[k]);
+                            if r != old.map(|p| model[p].val.clone()) {
+                                problem = Some(format!("remove returned {:?}", r));
+                            }
+                            if let Some(p) = old {
+                                model.remove(p);
+                            }
+                        }
+                        4 => {
+                            desc.push_str(" clear;");
+                            m.clear();
+                            model.clear();
+                        }
+                        _ => {
+                            desc.push_str(&format!(" contains_key(key#{});", k));
+                            if m.contains_key(keys[k]) != model.iter().any(|a| a.key == k) {
+                                problem = Some("contains_key disagrees".into());
+                            }
+                        }
+                    }
+                    // reads through the SAME view after every update
+                    let want: Vec<(NameId, String)> = model.iter().map(|a| (keys[a.key], a.val.clone())).collect();
+                    let got: Vec<(NameId, String)> = m.iter().map(|(k, v)| (k, v.clone())).collect();
+                    if problem.is_none() && (m.len() != model.len() || m.is_empty() != model.is_empty() || got != want || m.keys().count() != model.len()) {
+                        problem = Some(format!("the same view reports len {} / is_empty {} / {} entries, the map holds {} entries", m.len(), m.is_empty(), got.len(), model.len()));
+                    }
+                    if problem.is_some() {
+                        break;
+                    }
+                }
+            }
+            self.e[which].attrs = model;
+        } else {
+            desc.push_str(&format!("namespaces_mut(e{}) session:", which));
+            let mut model: Vec<NEntry> = self.e[which].nss.clone();
+            let keys = self.nkeys.clone();
+            let uris = self.uris.clone();
+            {
+                let mut m = self.xot.namespaces_mut(e);
+                for _ in 0..n_ops {
+                    let k = rng.below(keys.len());
+                    let u = if ns_key(k).is_empty() { rng.below(URIS.len()) } else { rng.below(URIS.len() - 1) };
+                    match rng.below(6) {
+                        0 => {
+                            desc.push_str(" len;");
+                        }
+                        1 | 2 => {
+                            desc.push_str(&format!(" insert(prefix#{}, uri#{});", k, u));
+                            let old = model.iter().position(|a| a.key == k);
+                            let r = m.insert(keys[k], uris[u]);
+                            if r != old.map(|p| uris[model[p].val]) {
+                                problem = Some(format!("insert returned {:?}", r.is_some()));
+                            }
+                            match old {
+                                Some(p) => model[p].val = u,
+                                None => model.push(NEntry { key: k, val: u, node: None }),
+                            }
+                        }
+                        3 => {
+                            desc.push_str(&format!(" remove(prefix#{});", k));
+                            let old = model.iter().position(|a| a.key == k);
+                            let r = m.remove(keys[k]);
+                            if r != old.map(|p| uris[model[p].val]) {
+                                problem = Some(format!("remove returned {:?}", r.is_some()));
+                            }
+                            if let Some(p) = old {
+                                model.remove(p);
+                            }
+                        }
+                        4 => {
+                            desc.push_str(" clear;");
+                            m.clear();
+                            model.clear();
+                        }
+                        _ => {
+                            desc.push_str(&format!(" contains_key(prefix#{});", k));
+                            if m.contains_key(keys[k]) != model.iter().any(|a| a.key == k) {
+                                problem = Some("contains_key disagrees".into());
+                            }
+                        }
+                    }
+                    let want: Vec<(PrefixId, NamespaceId)> = model.iter().map(|a| (keys[a.key], uris[a.val])).collect();
+                    let got: Vec<(PrefixId, NamespaceId)> = m.iter().map(|(k, v)| (k, *v)).collect();
+                    if problem.is_none() && (m.len() != model.len() || m.is_empty() != model.is_empty() || got != want || m.keys().count() != model.len()) {
+                        problem = Some(format!("the same view reports len {} / is_empty {} / {} entries, the map holds {} entries", m.len(), m.is_empty(), got.len(), model.len()));
+                    }
+                    if problem.is_some() {
+                        break;
+                    }
+                }
+            }
+            self.e[which].nss = model;
+        }
+        self.adopt_nodes(0);
+        self.adopt_nodes(1);
+        (desc, problem)
+    }
+
+    /// the element serialised on its own (it is the top node): own declarations in map order (inherited ones may be
+    /// written among them), attributes in map order
+    fn check_serialised_alone(&self, which: usize) -> Option<String> {
+        let text = match self.xot.to_string(self.e[which].node) {
+            Ok(t) => t,
+            Err(_) => return None,
+        };
+        let d = match xmlread::read(&text, true) {
+            Ok(d) => d,
+            Err(e) => return Some(format!("serialisation {:?} of the element alone unreadable: {}", text, e)),
+        };
+        let el = d.children.iter().find(|c| c.is_elem())?;
+        let want_d: Vec<(String, String)> = self.e[which].nss.iter().map(|n| (ns_key(n.key), URIS[n.val].to_string())).collect();
+        let own: Vec<(String, String)> = el.decls.iter().filter(|(p, _)| want_d.iter().any(|(wp, _)| wp == p)).cloned().collect();
+        if own != want_d {
+            return Some(format!("start tag of e{} serialised alone lists its own declarations as {:?}, the map is {:?} (text {:?})", which, own, want_d, text));
+        }
+        let want_a: Vec<(QName, String)> = self.e[which]
+            .attrs
+            .iter()
+            .map(|a| {
+                let (ns, l) = attr_key(a.key);
+                (QName::new(&ns, &l), a.val.clone())
+            })
+            .collect();
+        if el.attrs != want_a {
+            return Some(format!("start tag of e{} serialised alone lists attributes {:?}, the map order is {:?} (text {:?})", which, el.attrs, want_a, text));
+        }
+        None
+    }
+
     /// serialised order of declarations and attributes in the start tags of e0 / e1
     fn check_serialised(&self) -> Option<String> {
         let text = match self.xot.to_string(self.doc) {
@@ -778,6 +955,9 @@ impl World {
 }
 
 fn op_class(desc: &str) -> String {
+    if desc.contains(" session:") {
+        return format!("{}.session", desc.split('(').next().unwrap_or("view"));
+    }
     let d = desc.trim_start_matches("match ").trim_start_matches('*');
     let head: String = d.chars().take_while(|c| *c != '{').collect();
     let mut out = String::new();
@@ -805,7 +985,7 @@ impl Monitor for C11 {
         vec![Stream::new("forced-empty-and-single", 8), Stream::new("histories", scaled(n, budget))]
     }
     fn rule(&self) -> String {
-        "two sibling elements starting with 0-4 namespace and 0-4 attribute entries (keys from pools of 4; one history in twenty-five uses pools of 40 keys and starts with 10-40 entries per map, so that maps grow past 16 and 32 entries); histories of 1-40 map-style and node-style updates (insert, remove, get_mut, clear, every Entry path, set_/remove_ shorthands, append_*_node, any_append, append_namespace, detach/remove of entry nodes, moving an entry node in from the sibling); after every step every accessor of the read-only and the mutable view of both maps is compared with an ordered-map model, and the start tags of the serialisation are read by the independent XML reader. Non-trivial = >= 3 effective steps; distinct by hash of the step list".into()
+        "two sibling elements starting with 0-4 namespace and 0-4 attribute entries (keys from pools of 4; one history in twenty-five uses pools of 40 keys and starts with 10-40 entries per map, so that maps grow past 16 and 32 entries); histories of 1-40 map-style and node-style updates (insert, remove, get_mut, clear, every Entry path, set_/remove_ shorthands, append_*_node, any_append, append_namespace, detach/remove of entry nodes, moving an entry node in from the sibling); one step in eight is a session of 2-6 updates and reads through ONE mutable view kept alive; the common parent binds some of the same prefixes; after every step every accessor of the read-only and the mutable view of both maps is compared with an ordered-map model, and the start tags of the serialisation of the document and of each element on its own are read by the independent XML reader. Non-trivial = >= 3 effective steps; distinct by hash of the step list".into()
     }
     fn floors(&self, _tier: Tier) -> Vec<(&'static str, u64)> {
         vec![("steps_checked", 100_000), ("serialisations_checked", 10_000), ("views_compared_nonempty", 10_000), ("views_compared_empty", 1_000), ("wide_pool_histories", 500)]
@@ -910,6 +1090,21 @@ impl Monitor for C11 {
                         );
                         return;
                     }
+                }
+            }
+            match guard(|| w.check_serialised_alone(0).or_else(|| w.check_serialised_alone(1))) {
+                Ok(None) => ctx.count("serialisations_alone_checked"),
+                Ok(Some(bad)) => {
+                    ctx.violation(
+                        "start tag of the element serialised on its own differs from the map",
+                        format!("C11/{}/serialised-alone", op_class(&last)),
+                        J::obj().set("start", J::s(start.clone())).set("steps", J::Arr(log.iter().map(|s| J::s(s.clone())).collect())).set("what", J::s(bad)),
+                    );
+                    return;
+                }
+                Err(p) => {
+                    ctx.violation("serialisation panicked", format!("C11/serialise/panic/{}", p.sig()), J::obj().set("panic", J::s(p.short())));
+                    return;
                 }
             }
             match guard(|| w.check_serialised()) {
